@@ -31,7 +31,27 @@ Record obs_value := {
   v_opt_hash : N;            (* CalculateCommitImportedBrdigeExitsHashFromClaims([claim with GlobalIndex v]) *)
 }.
 
-Inductive case19 := CT (o : obs_triple) | CV (o : obs_value).
+(* observations for ONE certificate / prover request carrying the claims b_ts in order (claim i has its own bridge exit) *)
+Record obs_batch := {
+  b_ts : list (bool * N * N);
+  b_wire : list (nat * N);     (* SubmitCertificateRequest built by the real SendCertificate: imported_bridge_exits[i].global_index *)
+  b_prover : list (nat * N);   (* GenerateAggchainProofRequest: imported_bridge_exits[i].global_index *)
+  b_exit_hash : list N;        (* BridgeExit.Hash() of claim i *)
+  b_ler : N;
+  b_pp_hash : N;               (* Certificate.PPHashToSign() *)
+  b_opt_hash : N;              (* optimistic commitment over claims whose GlobalIndex = GenerateGlobalIndex(triple i) *)
+}.
+
+Inductive case19 := CT (o : obs_triple) | CV (o : obs_value) | CB (o : obs_batch).
+
+Fixpoint all2 {A B} (f : A -> B -> bool) (l1 : list A) (l2 : list B) : bool :=
+  match l1, l2 with
+  | [], [] => true
+  | a :: t1, b :: t2 => f a b && all2 f t1 t2
+  | _, _ => false
+  end.
+Fixpoint zipcat {A B} (f : A -> B -> bytes) (l1 : list A) (l2 : list B) : bytes :=
+  match l1, l2 with a :: t1, b :: t2 => f a b ++ zipcat f t1 t2 | _, _ => [] end.
 
 (* model == implementation ? *)
 Definition corr_triple (o : obs_triple) : bool :=
@@ -45,7 +65,13 @@ Definition corr_value (o : obs_value) : bool :=
   bn_eqb (v_wire o) (bn (wire_gi t)) && bn_eqb (v_commit o) (bn (commit_gi t)) &&
   bn_eqb (v_opt_le o) (bn (optimistic_gi (v_v o))) &&
   N.eqb (v_opt_hash o) (keccakN (optimistic_gi (v_v o) ++ be 32 (v_exit_hash o))).
-Definition corr (c : case19) : bool := match c with CT o => corr_triple o | CV o => corr_value o end.
+Definition corr_batch (o : obs_batch) : bool :=
+  all2 (fun t w => bn_eqb w (bn (wire_gi t))) (b_ts o) (b_wire o) &&
+  all2 (fun t w => bn_eqb w (bn (prover_gi t))) (b_ts o) (b_prover o) &&
+  Nat.eqb (length (b_exit_hash o)) (length (b_ts o)) &&
+  N.eqb (b_pp_hash o) (keccakN (be 32 (b_ler o) ++ be 32 (keccakN (concat (map (fun t => be 32 (keccakN (commit_gi t))) (b_ts o)))))) &&
+  N.eqb (b_opt_hash o) (keccakN (zipcat (fun t h => optimistic_gi (enc3 t) ++ be 32 h) (b_ts o) (b_exit_hash o))).
+Definition corr (c : case19) : bool := match c with CT o => corr_triple o | CV o => corr_value o | CB o => corr_batch o end.
 
 (* the property, evaluated on what the implementation returned (no model function involved
    except byte-order helpers le/be) *)
@@ -63,7 +89,17 @@ Definition spec_value (o : obs_value) : bool :=
     N.eqb (v_reenc o) v && bn_eqb (v_wire o) (32%nat, v) &&
     bn_eqb (v_commit o) (bn (le 32 v)) && bn_eqb (v_opt_le o) (bn (le 32 v))
   else true.
-Definition spec (c : case19) : bool := match c with CT o => spec_triple o | CV o => spec_value o end.
+(* every claim of the certificate keeps ITS OWN global index at every carrier: wire message, prover request, the signed
+   (pessimistic) commitment and the optimistic commitment, judged against the layout and the Gallina Keccak only *)
+Definition layout3 (t : bool * N * N) : N := let '(m, r, l) := t in layout m r l.
+Definition spec_batch (o : obs_batch) : bool :=
+  negb (Nat.eqb (length (b_ts o)) 0) &&
+  all2 (fun t w => bn_eqb w (32%nat, layout3 t)) (b_ts o) (b_wire o) &&
+  all2 (fun t w => bn_eqb w (32%nat, layout3 t)) (b_ts o) (b_prover o) &&
+  Nat.eqb (length (b_exit_hash o)) (length (b_ts o)) &&
+  N.eqb (b_pp_hash o) (keccakN (be 32 (b_ler o) ++ be 32 (keccakN (concat (map (fun t => be 32 (keccakN (le 32 (layout3 t)))) (b_ts o)))))) &&
+  N.eqb (b_opt_hash o) (keccakN (zipcat (fun t h => le 32 (layout3 t) ++ be 32 h) (b_ts o) (b_exit_hash o))).
+Definition spec (c : case19) : bool := match c with CT o => spec_triple o | CV o => spec_value o | CB o => spec_batch o end.
 
 Fixpoint bad_indices {A} (f : A -> bool) (i : nat) (l : list A) : list nat :=
   match l with [] => [] | x :: t => if f x then bad_indices f (S i) t else i :: bad_indices f (S i) t end.
